@@ -1803,6 +1803,8 @@ class C08(Prop):
         ("type-named-like-function", r"typer/src/typer/scopes\.rs", "find_identifier_in_scope", r"assertion failed: overloads\.is_empty\(\)"),
         ("template-value-parameter-used-as-type", r"typer/src/typer/scopes\.rs", "find_identifier_in_scope", r"internal error: entered unreachable code"),
         ("struct-inherits-methods", r"typer/src/typer/structs\.rs", None, r"not yet implemented: Inherited methods are not implemented"),
+        ("msl-struct-cast-of-huge-array", r"msl/src/generator\.rs", None, r"attempt to multiply with overflow"),
+        ("function-template-declared-without-body", r"typer/src/typer/functions\.rs", "parse_function_body", r"called `Option::unwrap\(\)` on a `None` value"),
     ]
 
     def kind(self, case):
@@ -1838,6 +1840,9 @@ class C08(Prop):
         if impl.startswith("TIMEOUT"):
             if _angle_depth(_c08_program(case)) >= 16:
                 return "nested-template-arguments-exponential"
+            # one initialiser per array element: with enough memory the allocation does not fail, it takes for ever
+            if re.search(r"\bF corpus/programs/msl_struct_cast_of_huge_array_allocation\.rssl$", case.strip()) and case.startswith(("Msl", "Metal")):
+                return "msl-struct-cast-of-huge-array"
             return None
         if impl.startswith("ABORT"):
             text = _c08_program(case)
@@ -1849,6 +1854,8 @@ class C08(Prop):
             # a template that instantiates itself with a larger argument each time: the two recorded programs
             if re.search(r"\bF corpus/programs/endless_(struct|function)_template\.rssl$", case.strip()):
                 return "endless-template-instantiation"
+            if re.search(r"\bF corpus/programs/msl_struct_cast_of_huge_array_allocation\.rssl$", case.strip()) and case.startswith(("Msl", "Metal")):
+                return "msl-struct-cast-of-huge-array"
             return None
         return None
 
